@@ -582,24 +582,10 @@ func pathToExitAvoiding(fn *ssa.Function, from ssa.Instruction, stop func(ssa.In
 	return nil
 }
 
-// reachFromInstr: the set of call instructions executable after `from` (exclusive) when the given edges are removed
+// reachFromInstr: the set of instructions executable after `from` (exclusive) when the given edges are removed
 // and traversal stops at instructions satisfying barrier.
 func reachFromInstr(from ssa.Instruction, removed []Edge, barrier func(ssa.Instruction) bool) map[ssa.Instruction]bool {
-	rm := map[Edge]bool{}
-	for _, e := range removed {
-		rm[e] = true
-	}
 	res := map[ssa.Instruction]bool{}
-	scan := func(b *ssa.BasicBlock, start int) bool { // returns false if blocked
-		for i := start; i < len(b.Instrs); i++ {
-			ins := b.Instrs[i]
-			if barrier != nil && barrier(ins) {
-				return false
-			}
-			res[ins] = true
-		}
-		return true
-	}
 	b0 := from.Block()
 	start := 0
 	for i, ins := range b0.Instrs {
@@ -607,29 +593,16 @@ func reachFromInstr(from ssa.Instruction, removed []Edge, barrier func(ssa.Instr
 			start = i + 1
 		}
 	}
-	seen := map[*ssa.BasicBlock]bool{}
-	var stack []*ssa.BasicBlock
-	push := func(b *ssa.BasicBlock) {
-		for i, s := range b.Succs {
-			if !rm[Edge{b, i}] {
-				stack = append(stack, s)
+	reachCore([]rstate{{b0, nil}}, start, removed, func(b *ssa.BasicBlock, st int) bool {
+		for i := st; i < len(b.Instrs); i++ {
+			ins := b.Instrs[i]
+			if barrier != nil && barrier(ins) {
+				return false
 			}
+			res[ins] = true
 		}
-	}
-	if scan(b0, start) {
-		push(b0)
-	}
-	for len(stack) > 0 {
-		b := stack[len(stack)-1]
-		stack = stack[:len(stack)-1]
-		if seen[b] {
-			continue
-		}
-		seen[b] = true
-		if scan(b, 0) {
-			push(b)
-		}
-	}
+		return true
+	})
 	return res
 }
 
